@@ -4,6 +4,8 @@ var RecordMixin *Mixin // ::Std::Record
 
 func initRecord() {
 	RecordMixin = NewMixin()
+	// headers/record.elh: include Iterable::Base[Pair[Key, Value]]
+	RecordMixin.IncludeMixin(IterableBaseMixin)
 	StdModule.AddConstantString("Record", Ref(RecordMixin))
 	RegisterNativeMixin("Std::Record", "value.RecordMixin")
 }
